@@ -163,9 +163,15 @@ def _add_zids(zdir: Path, page: Page) -> None:
             zid = zid_manager.get_next(note.create_date)
             note.zid = zid
             old_body = note.body.lstrip()
-            if zdt.is_long_date_spec(old_body.split(" ")[0]):
+            first_word = old_body.split(" ")[0]
+            if zdt.is_short_date_spec(first_word):
+                # A YYMMDD modify date stays in front of the new ZID.
                 old_body = " ".join(old_body.split(" ")[1:])
-            note.body = f"{zid} {old_body}"
+                note.body = f"{first_word} {zid} {old_body}"
+            else:
+                if zdt.is_long_date_spec(first_word):
+                    old_body = " ".join(old_body.split(" ")[1:])
+                note.body = f"{zid} {old_body}"
             new_notes.append(note)
     if new_notes:
         page.events.append(
